@@ -585,3 +585,39 @@ Proof.
     eapply rc_go_good; [apply wf_indexed|constructor|exact E].
   - exfalso. eapply rc_go_some; [exact Hd|exact E].
 Qed.
+
+(* round_robin returns the first available upstream, cyclically, after the previous position *)
+Definition avail_pos (pool : list upstream) (p : Z) : bool :=
+  match nth_error pool (Z.to_nat (p mod Z.of_nat (length pool))) with
+  | Some u => available u
+  | None => false
+  end.
+
+Lemma rr_go_next (pool : list upstream) : forall fuel robin i r',
+  0 <= robin -> robin + Z.of_nat fuel < two32 ->
+  rr_go pool (Z.of_nat (length pool)) fuel robin = (Sel i, r') ->
+  robin < r' <= robin + Z.of_nat fuel /\ i = Z.to_nat (r' mod Z.of_nat (length pool)) /\
+  avail_pos pool r' = true /\ forall p, robin < p < r' -> avail_pos pool p = false.
+Proof.
+  induction fuel as [|f IH]; intros robin i r' Hr Hw H; cbn [rr_go] in H; [discriminate|].
+  assert (Hmod : (robin + 1) mod two32 = robin + 1) by (apply Z.mod_small; lia).
+  rewrite Hmod in H.
+  destruct (nth_error pool (Z.to_nat ((robin + 1) mod Z.of_nat (length pool)))) as [host|] eqn:E; [|discriminate].
+  destruct (available host) eqn:Ea.
+  - inversion H; subst. split; [lia|]. split; [reflexivity|]. split; [unfold avail_pos; rewrite E; exact Ea|].
+    intros p Hp. lia.
+  - apply IH in H; [|lia|lia]. destruct H as (Hrange & Hi & Hav & Hbetween).
+    split; [lia|]. split; [exact Hi|]. split; [exact Hav|].
+    intros p Hp. destruct (Z.eq_dec p (robin + 1)) as [->|Hne]; [unfold avail_pos; rewrite E; exact Ea|].
+    apply Hbetween. lia.
+Qed.
+
+Lemma round_robin_next pool robin i r' :
+  0 <= robin -> robin + Z.of_nat (length pool) < two32 ->
+  round_robin pool robin = (Sel i, r') ->
+  robin < r' <= robin + Z.of_nat (length pool) /\ i = Z.to_nat (r' mod Z.of_nat (length pool)) /\
+  avail_pos pool r' = true /\ forall p, robin < p < r' -> avail_pos pool p = false.
+Proof.
+  intros Hr Hw. unfold round_robin. destruct (Z.of_nat (length pool) =? 0); [discriminate|].
+  apply rr_go_next; assumption.
+Qed.
